@@ -163,7 +163,19 @@ struct Reg {
   // ---- registration
   std::string draw_name(bool &is_null) {
     is_null = false;
-    switch (c.weighted({2, 8, 4, 3, 3})) {
+    // one byte: 0xec..0xff select names with bytes >= 0x80 (UTF-8 text; round 8), below that it decodes as weighted({2,8,4,3,3}) did (byte % 20)
+    size_t nb = c.range(0, 255), style = 0;
+    if (nb >= 0xec) {
+      static const char *const parts[] = {"\xc3\xa4", "\xe2\x82\xac", "a", "b", "\xff"};
+      std::string u8;
+      size_t n = c.range(1, 4);
+      for (size_t i = 0; i < n; i++) u8 += parts[c.pick(5)];
+      if (c.flip()) u8 = parts[c.pick(2)] + u8;  // first byte >= 0x80
+      c.label("name:high-bytes");
+      return u8;
+    }
+    { static const unsigned w[] = {2, 8, 4, 3, 3}; unsigned r = nb % 20; while (r >= w[style]) r -= w[style++]; }
+    switch (style) {
       case 0: is_null = true; return "";
       case 1: { size_t n = c.range(0, 6); std::string s; for (size_t i = 0; i < n; i++) s += (char)('a' + c.pick(2)); return s; }
       case 2: return c.choose<const char *>({"log", "iter", "out", "meta", "logger", "iterator", "output", "metatype"});
